@@ -111,6 +111,7 @@ func main() {
 					}
 				}
 			}
+			names = append(names, inl.LocalClosures(pr.Mod, ir.ExcludedFile)...)
 		}
 		sort.Strings(names)
 		for _, n := range names {
@@ -134,6 +135,7 @@ func main() {
 			keptNew = append(keptNew, tr.Kept...)
 			newFuncs = append(newFuncs, tr.New...)
 			undone = append(undone, tr.Undone...)
+			undone = append(undone, tr.Normalized...)
 		}
 		if *showSrc {
 			for k, v := range overlay {
@@ -198,7 +200,7 @@ func main() {
 			run.Extra["baseline_symbols_renamed_in_this_tree"] = renameNotes
 		}
 		if len(undone) > 0 {
-			run.Extra["function_method_conversions_undone_before_analysis"] = undone
+			run.Extra["source_normalisations_before_analysis"] = undone
 		}
 		if inlineNote != "" {
 			run.Extra["inlining_note"] = inlineNote
